@@ -31,6 +31,8 @@ pub enum Thrown {
     Runtime(String),
     /// a thrown number
     Num(i64),
+    /// a thrown plain map `{code: c}` (no metamap)
+    Plain(i64),
 }
 
 impl Thrown {
@@ -41,6 +43,7 @@ impl Thrown {
             Thrown::Typed(k, c) => format!("T{k}({c})"),
             Thrown::Runtime(s) => s.clone(),
             Thrown::Num(n) => n.to_string(),
+            Thrown::Plain(c) => format!("{{code: {c}}}"),
         }
     }
 }
@@ -741,6 +744,11 @@ impl<'a> Model<'a> {
                 let line = self.stmt_line(s);
                 return Err(self.throw_stmt(Thrown::Num(c), line));
             }
+            Stmt::Throw(ThrowKind::Plain(e)) => {
+                let c = self.eval(e, f)?;
+                let line = self.stmt_line(s);
+                return Err(self.throw_stmt(Thrown::Plain(c), line));
+            }
             Stmt::Try(t) => self.exec_try(t, f)?,
             Stmt::Dump(n) => self.dump(*n, f),
             Stmt::Expr(e) => {
@@ -784,7 +792,7 @@ impl<'a> Model<'a> {
                     self.out.sig.push("failed-import-caught".into());
                 }
             }
-            Stmt::Fall(..) => {}
+            Stmt::Fall(..) | Stmt::Misc(_) => {}
             Stmt::PreludeFail(k) => {
                 let (_, frames, _, msg, thrown_string) = crate::simlang::PRELUDE_FAILS[*k as usize];
                 let base = self.printed.prelude_fail_line[*k as usize];
@@ -843,6 +851,12 @@ impl<'a> Model<'a> {
                 f.i[*v as usize] = f.i[*v as usize].wrapping_add(*n as i64);
                 self.out.error_occurred = true;
                 self.out.sig.push("storm".into());
+                self.out.storm_iterations += *n as u64;
+            }
+            Stmt::Calm(v, _, n) => {
+                // every iteration completes; `xx` ends up with the expected value
+                f.i[*v as usize] = f.i[*v as usize].wrapping_add(1);
+                self.out.sig.push("calm".into());
                 self.out.storm_iterations += *n as u64;
             }
             Stmt::LoopTryBreak(v, id, pre, val, handler) => {
@@ -939,7 +953,7 @@ impl<'a> Model<'a> {
                     (CatchKind::String, Thrown::Str(_) | Thrown::Runtime(_)) => true,
                     (CatchKind::Number, Thrown::Num(_)) => true,
                     (CatchKind::Typed(k), Thrown::Typed(k2, _)) => k == k2,
-                    (CatchKind::MapCode | CatchKind::MapCodeNum, Thrown::Typed(..)) => true,
+                    (CatchKind::MapCode | CatchKind::MapCodeNum, Thrown::Typed(..) | Thrown::Plain(_)) => true,
                     (CatchKind::StringOpt, Thrown::Str(_) | Thrown::Runtime(_)) => true,
                     (CatchKind::TypedOpt(k), Thrown::Typed(k2, _)) => k == k2,
                     (CatchKind::MapCodeTyped(k), Thrown::Typed(k2, _)) => k == k2,
@@ -948,7 +962,7 @@ impl<'a> Model<'a> {
             if let Some(ix) = ix {
                 let shown = match (&t.catches[ix].kind, &th) {
                     // the pattern binds the entry, not the thrown map
-                    (CatchKind::MapCode | CatchKind::MapCodeTyped(_) | CatchKind::MapCodeNum, Thrown::Typed(_, c)) => c.to_string(),
+                    (CatchKind::MapCode | CatchKind::MapCodeTyped(_) | CatchKind::MapCodeNum, Thrown::Typed(_, c) | Thrown::Plain(c)) => c.to_string(),
                     _ => th.class(),
                 };
                 self.out.caught.push((t.id, shown));
@@ -961,7 +975,11 @@ impl<'a> Model<'a> {
                         CatchKind::Number => "number",
                         CatchKind::Typed(_) | CatchKind::TypedOpt(_) => "typed",
                         CatchKind::NeverLocal(_) => "never",
-                        CatchKind::MapCode | CatchKind::MapCodeTyped(_) | CatchKind::MapMissing | CatchKind::MapCodeNum => "map-pattern",
+                        CatchKind::MapCode
+                        | CatchKind::MapCodeTyped(_)
+                        | CatchKind::MapMissing
+                        | CatchKind::MapCodeNum
+                        | CatchKind::MapCodeCount => "map-pattern",
                     }
                 ));
                 r = self.exec_block(&t.catches[ix].block, f);
